@@ -197,8 +197,173 @@ func userParamDerived(t *core.Term) (bool, string) {
 	return found, what
 }
 
+// checkNoParameterDropped is R19.6: a request field travels to the layer below as an argument; a function on the run path that
+// receives it and never looks at it has dropped it (the layer below then runs with a default instead of what the request said).
+// Every named parameter of every plain function or constructor on the run path (methods that implement an interface excepted:
+// their signature is not theirs to choose) has at least one use.
+func checkNoParameterDropped(c *Ctx) {
+	R := c.R
+	n := 0
+	rp := runPathFuncs(c)
+	var fs []*ssa.Function
+	for f := range rp {
+		fs = append(fs, f)
+	}
+	sort.Slice(fs, func(i, j int) bool { return core.FuncName(fs[i]) < core.FuncName(fs[j]) })
+	for _, f := range fs {
+		fn := core.FuncName(f)
+		if f.Synthetic != "" || len(f.Blocks) == 0 || strings.Contains(fn, "Mock") || f.Parent() != nil {
+			continue
+		}
+		// the layers between the request and the engine / the wire: the front end and the per-protocol packages (the shared
+		// packages below them have platform switches and logging labels among their parameters)
+		switch core.ShortPkg(core.FuncPkg(f)) {
+		case "traceroute", "tcp", "udp", "icmp", "sack", "server", "cmd":
+		default:
+			continue
+		}
+		// interface-mandated methods
+		if recv := f.Signature.Recv(); recv != nil && implementsModuleInterface(c, recv.Type(), f.Name()) {
+			continue
+		}
+		for i, pa := range f.Params {
+			if f.Signature.Recv() != nil && i == 0 {
+				continue
+			}
+			if pa.Name() == "_" || pa.Name() == "" {
+				continue
+			}
+			n++
+			used := pa.Referrers() != nil && len(*pa.Referrers()) > 0
+			R.Check(used, "R19.6", fmt.Sprintf("%s#param[%s]", fn, pa.Name()), f.Pos(), fn, "parameter "+pa.Name()+" is used", "parameter "+pa.Name()+" of "+fn+" is never used: whatever the caller hands over here (a request field on its way to the layer below) is dropped and a default takes its place")
+		}
+	}
+	R.Floor("R19.6:parameters", n, 30)
+}
+
+// implementsModuleInterface: a method named name of type t is part of some module interface's method set that t implements.
+func implementsModuleInterface(c *Ctx, t types.Type, name string) bool {
+	for _, sp := range c.P.SSAPkgs {
+		for _, m := range sp.Members {
+			tn, ok := m.(*ssa.Type)
+			if !ok {
+				continue
+			}
+			iface, ok := tn.Type().Underlying().(*types.Interface)
+			if !ok {
+				continue
+			}
+			has := false
+			for i := 0; i < iface.NumMethods(); i++ {
+				if iface.Method(i).Name() == name {
+					has = true
+				}
+			}
+			if has && (types.Implements(t, iface) || types.Implements(types.NewPointer(t), iface)) {
+				return true
+			}
+		}
+	}
+	return false
+}
+
+// checkConstructorsForward is R19.6b: a constructor of the per-protocol packages (a function that returns a struct it allocates)
+// puts every one of its parameters into the constructed value or hands it to a call; a parameter that only steers a branch no longer
+// reaches the code that reads the corresponding field.
+func checkConstructorsForward(c *Ctx) {
+	R := c.R
+	n := 0
+	var fs []*ssa.Function
+	for f := range runPathFuncs(c) {
+		fs = append(fs, f)
+	}
+	sort.Slice(fs, func(i, j int) bool { return core.FuncName(fs[i]) < core.FuncName(fs[j]) })
+	derives := func(v ssa.Value, p *ssa.Parameter) bool {
+		seen := map[ssa.Value]bool{}
+		var walk func(v ssa.Value, d int) bool
+		walk = func(v ssa.Value, d int) bool {
+			if v == nil || d > 4 || seen[v] {
+				return false
+			}
+			seen[v] = true
+			if v == ssa.Value(p) {
+				return true
+			}
+			// a by-value struct parameter is spilled into a local and read back field by field
+			if a2, ok := v.(*ssa.Alloc); ok && a2.Referrers() != nil {
+				for _, r := range *a2.Referrers() {
+					if st, ok := r.(*ssa.Store); ok && st.Addr == ssa.Value(a2) && st.Val == ssa.Value(p) {
+						return true
+					}
+				}
+			}
+			if in, ok := v.(ssa.Instruction); ok {
+				for _, op := range in.Operands(nil) {
+					if op != nil && *op != nil && walk(*op, d+1) {
+						return true
+					}
+				}
+			}
+			return false
+		}
+		return walk(v, 0)
+	}
+	for _, f := range fs {
+		switch core.ShortPkg(core.FuncPkg(f)) {
+		case "tcp", "udp", "icmp", "sack":
+		default:
+			continue
+		}
+		if f.Synthetic != "" || f.Parent() != nil || len(f.Blocks) == 0 || f.Signature.Recv() != nil || strings.Contains(core.FuncName(f), "Mock") {
+			continue
+		}
+		// returns a struct it allocates
+		var al *ssa.Alloc
+		for _, b := range f.Blocks {
+			if ret, ok := b.Instrs[len(b.Instrs)-1].(*ssa.Return); ok && len(ret.Results) >= 1 {
+				if a, ok := ret.Results[0].(*ssa.Alloc); ok && a.Heap {
+					if _, isStruct := a.Type().Underlying().(*types.Pointer).Elem().Underlying().(*types.Struct); isStruct {
+						al = a
+					}
+				}
+			}
+		}
+		if al == nil {
+			continue
+		}
+		fn := core.FuncName(f)
+		for _, pa := range f.Params {
+			if pa.Name() == "_" || pa.Name() == "" {
+				continue
+			}
+			n++
+			ok := false
+			for _, b := range f.Blocks {
+				for _, in := range b.Instrs {
+					switch x := in.(type) {
+					case *ssa.Store:
+						if fa, isFA := x.Addr.(*ssa.FieldAddr); isFA && fa.X == ssa.Value(al) && derives(x.Val, pa) {
+							ok = true
+						}
+					case ssa.CallInstruction:
+						for _, a := range x.Common().Args {
+							if derives(a, pa) {
+								ok = true
+							}
+						}
+					}
+				}
+			}
+			R.Check(ok, "R19.6", fmt.Sprintf("%s#forwards[%s]", fn, pa.Name()), f.Pos(), fn, "constructor parameter "+pa.Name()+" reaches the constructed value (or a call)", "constructor parameter "+pa.Name()+" of "+fn+" is not stored in the constructed value nor handed on: the field the code below reads keeps its zero value whatever the request said")
+		}
+	}
+	R.Floor("R19.6:constructor-parameters", n, 10)
+}
+
 func runC19(c *Ctx) {
 	R := c.R
+	checkNoParameterDropped(c)
+	checkConstructorsForward(c)
 	nconv, ncand := 0, 0
 	for _, f := range c.P.ModFuncs {
 		fn := core.FuncName(f)
